@@ -22,7 +22,8 @@ RULE = ("generated models with 1-2 delayed feedbacks y = delay(expr, tau): expr 
         "incomplete; distinct = abstracted shapes")
 MODELLED = "transcribe() delayed feedback block (history assembly, enough-history decision, interpolation of out_values, row nominal)"
 NOT_MODELLED = ("delayed expressions that mention constant inputs or time (their values on the history are not part of the "
-                "model), aliases of the receiving variable, the simulator (C09)")
+                "model), aliases of the receiving variable; the simulator's delay buffer is proved in C09_delay_weight and exercised "
+                "here on generated models against the interpolated delayed expression")
 ASSUMPTIONS = ["history series end at t0"]
 
 
@@ -66,6 +67,9 @@ def gen_case(rng):
         if rng.random() < 0.4:
             s.setdefault("nominals", {})[name] = str(rng.choice([2, Fraction(1, 4), 10]))
     s["delayed_feedback"] = delays
+    # what an IO mixin reports about its (equidistant) import data; the axis of history ++ horizon that the
+    # delayed expression is interpolated on is a different matter
+    s["equidistant"] = rng.random() < 0.5
     # histories
     hs = []
     for m in range(E):
@@ -165,3 +169,58 @@ def run(ctx):
                           what="delayed feedback rows differ from y(t) = expr(t - tau): row %s impl %s model %s" % bad[0][:3])
         elif len(ctx.samples) < 3 and used:
             ctx.sample({"spec": s, "rows_impl": g[-6:], "rows_model": [str(r) for r in rows[-6:]]})
+
+
+# ---- the simulator's delay buffer (same property, simulation side) ------------------------------------------
+def sim_delay_cases(ctx):
+    """pymoca-compiled models with delay(expr, tau), tau an integer or non-integer multiple of the step, a
+    fraction of it, zero, or a parameter: the delayed variable must be the expression, linearly interpolated,
+    tau seconds earlier (the value at t0 held before t0)"""
+    from concurrent.futures import ProcessPoolExecutor
+    from . import c09
+    rng = ctx.rng
+    specs = []
+    k = 0
+    while len(specs) < ctx.n(6, 200):
+        k += 1
+        m = c09.gen_model(rng, 1000 + k)
+        if not m["delays"]:
+            src = rng.choice(m["states"] + m["algebraics"])["name"]
+            mult = rng.choice([1, 2, Fraction(1, 2), Fraction(3, 2), Fraction(5, 4), 0, 3])
+            m["algebraics"].append({"name": "dly0"})
+            m["delays"].append(["dly0", ["v", src], str(mult * m["dt"])])
+        m["nsteps"] = max(m["nsteps"], 5)
+        for u in m["series"]:
+            while len(m["series"][u]) < m["nsteps"] + 1:
+                m["series"][u].append(str(Fraction(rng.randint(-16, 16), 4)))
+        specs.append(m)
+    with ProcessPoolExecutor(max_workers=8) as ex:
+        results = list(ex.map(c09.safe_run, specs))
+    for spec, res in zip(specs, results):
+        mult = Fraction(spec["delays"][0][2]) / spec["dt"]
+        ctx.case_done(core.fingerprint(["simdelay", str(mult), len(spec["states"]), len(spec["algebraics"])]), mult > 0)
+        ctx.count("sim_delay_models")
+        ctx.count("sim_delay_integer_multiple" if mult.denominator == 1 and mult > 0 else "sim_delay_other")
+        if "error" in res:
+            ctx.violation("simdelay/exception", {"spec": spec, "error": res["error"]}, no_input=True,
+                          what="simulation of a generated delay model failed: %s" % res["error"][:160])
+            continue
+        if res["raised"]:
+            ctx.violation("simdelay/step-raised", {"spec": spec, "raised": res["raised"]}, no_input=True, what="update() raised: %s" % res["raised"]["error"])
+            continue
+        obs = res["obs"]
+        for name, expr, tau in spec["delays"]:
+            ref = c09.delayed_reference(spec, obs, name, expr, tau)
+            got = [o[name] for o in obs]
+            if any(abs(a - b) > 1e-6 * (1 + abs(b)) for a, b in list(zip(got, ref))[1:]):
+                ctx.violation("simdelay/value", {"spec": spec, "delay": [name, expr, tau], "simulated": got, "expected": ref},
+                              what="simulated delayed variable %s (tau = %s x dt) is %s, the delayed expression is %s" % (name, mult, got, ref))
+
+
+_run_core = run
+
+
+def run(ctx):  # noqa: F811
+    _run_core(ctx)
+    if not os.environ.get("VERIF_REPLAY"):
+        sim_delay_cases(ctx)
